@@ -386,12 +386,15 @@ def check_C17(A, R, tier):
                                                            default_states=fin(A.L.jobstate, nonfin),
                                                            cell_init={"alljobs": fin(A.L.jobstate, nonfin)}))
         stored = [v for v in r1.by_kind("store_self") if v["proj"][:1] == (("f", A.L.start_field),)]
-        r2 = A.run(isf.name, "ISF|%s|finished" % sn, dict(self_init={A.L.start_field: fin(A.L.startstatus, [s])},
-                                                         default_states=fin(A.L.jobstate, C["Finished"]),
-                                                         cell_init={"alljobs": fin(A.L.jobstate, C["Finished"])}))
-        v2 = r2.ret
-        R.ob("R17.5", "is_finished | %s | all jobs finished => true" % sn,
-             v2 is not None and v2[0] == "fin" and set(v2[2]) == {(1,)}, detail=str(v2))
+        bad = []
+        for fs_ in sorted(C["Finished"]):
+            r2 = A.run(isf.name, "ISF|%s|%s" % (sn, A.sname(fs_)), dict(self_init={A.L.start_field: fin(A.L.startstatus, [s])},
+                                                                    default_states=fin(A.L.jobstate, [fs_]),
+                                                                    cell_init={"alljobs": fin(A.L.jobstate, [fs_])}))
+            v2 = r2.ret
+            if not (v2 is not None and v2[0] == "fin" and set(v2[2]) == {(1,)}):
+                bad.append(A.sname(fs_))
+        R.ob("R17.5", "is_finished | %s | all jobs finished => true" % sn, not bad, detail="not decided as true with every job in %s" % bad)
     # with at least one unfinished job visited, the status is never advanced to its final value
     # (checked as: the only store to the start status in is_finished is dominated by the loop exit)
     # R17.6 start status typestate
@@ -400,8 +403,7 @@ def check_C17(A, R, tier):
         if b.vis != "Public":
             continue
         name = short(b.name)
-        run = A.startup_run() if name == "event_startup" else A.joined_run(b)
-        for v in run.by_kind("store_self"):
+        for v in [x for run in (A.startup_runs() if name == "event_startup" else [A.joined_run(b)]) for x in run.by_kind("store_self")]:
             if v["proj"][:1] == (("f", A.L.start_field),) and v["value"][0] == "fin":
                 old = v["old"][2] if (v["old"] is not None and v["old"][0] == "fin") else frozenset(ss)
                 for o in old:
@@ -493,8 +495,8 @@ def pairing(A, R, rule, cls, target, what, exclude=None):
             runs.append(("%s/%s" % (name, A.sname(s)), run))
     for b in A.evaluator_methods():
         if b.vis == "Public" and short(b.name) not in EVENTS:
-            run = A.startup_run() if short(b.name) == "event_startup" else A.joined_run(b)
-            runs.append((short(b.name), run))
+            for run in (A.startup_runs() if short(b.name) == "event_startup" else [A.joined_run(b)]):
+                runs.append((short(b.name), run))
     n_enter = n_leave = n_ops = 0
     for (label, run) in runs:
         ops = []
